@@ -9,8 +9,9 @@
 (* other meta page - the old state - is used).                             *)
 (* Abstract disk: buckets (created?), index (height of the per-address     *)
 (* unspent index, -1 = none), history (height the history is parsed to,    *)
-(* -1 = none), blocks (number of blocks incl. genesis), pool (number of    *)
-(* pending transactions).  The node's life is: start-up (three commits:    *)
+(* -1 = none), blocks (number of blocks incl. genesis), pool (the pending  *)
+(* transactions: <<"own", k>> = the transaction block k will confirm,      *)
+(* <<"conf", k>> = one that spends the same outputs differently).  The node's life is: start-up (three commits:    *)
 (* CreateBuckets; build indexes and init history; visor init = genesis if  *)
 (* absent + prune pool), then the script of external events (block k,      *)
 (* inject, refresh, remove), each one commit.  A crash may happen between  *)
@@ -20,7 +21,7 @@
 (* disk a crash can leave; when the script is done the disk equals the     *)
 (* uncrashed one.                                                          *)
 (***************************************************************************)
-EXTENDS Integers, Sequences, TLC
+EXTENDS Integers, Sequences, FiniteSets, TLC
 CONSTANTS NBlocks, MaxCrashes
 
 VARIABLES disk, phase, next, crashes, log,
@@ -28,11 +29,13 @@ VARIABLES disk, phase, next, crashes, log,
           script       \* the external events of this life, in order (never changes; a variable so that a recorded trace can supply it)
 vars == <<disk, phase, next, crashes, log, pending, script>>
 
-Empty == [buckets |-> FALSE, index |-> -1, history |-> -1, blocks |-> 0, pool |-> 0]
-\* the model-checked script: block k is preceded by the injection of its transaction and a refresh of the pool, and followed
-\* by the removal of invalid pool transactions
-DefaultScript == [i \in 1..(4 * NBlocks) |-> LET k == (i + 3) \div 4 IN
-                   [ev |-> CASE i % 4 = 1 -> "inject" [] i % 4 = 2 -> "refresh" [] i % 4 = 3 -> "block" [] OTHER -> "remove", k |-> k]]
+Empty == [buckets |-> FALSE, index |-> -1, history |-> -1, blocks |-> 0, pool |-> {}]
+\* pending transactions that can no longer be confirmed: their block's outputs were spent by the block itself
+Invalid(d) == { t \in d.pool : t[1] = "conf" /\ t[2] < d.blocks }
+\* the model-checked script: block k is preceded by the injection of its transaction, of a conflicting one, and a refresh
+\* of the pool, and followed by the removal of invalid pool transactions
+DefaultScript == [i \in 1..(5 * NBlocks) |-> LET k == (i + 4) \div 5 IN
+                   [ev |-> CASE i % 5 = 1 -> "inject" [] i % 5 = 2 -> "conflict" [] i % 5 = 3 -> "refresh" [] i % 5 = 4 -> "block" [] OTHER -> "remove", k |-> k]]
 
 None == [name |-> "none", d |-> Empty]
 Init == disk = Empty /\ phase = "boot1" /\ next = 1 /\ crashes = 0 /\ log = << >> /\ pending = None /\ script = DefaultScript
@@ -46,19 +49,22 @@ Boot1 == phase = "boot1" /\ Commit("CreateBuckets", [disk EXCEPT !.buckets = TRU
 Boot2 == phase = "boot2" /\ Commit("build unspent indexes and init history",
                                     [disk EXCEPT !.index = IF disk.blocks = 0 THEN -1 ELSE disk.blocks - 1, !.history = IF disk.blocks = 0 THEN -1 ELSE disk.blocks - 1])
          /\ phase' = "boot3" /\ UNCHANGED <<next, crashes>>
-Boot3 == phase = "boot3" /\ Commit("visor init", IF disk.blocks = 0 THEN [disk EXCEPT !.blocks = 1, !.index = 0, !.history = 0] ELSE disk)
+\* visor init: the genesis block if there is none, and the pool loses what has become invalid
+Boot3 == phase = "boot3" /\ Commit("visor init", IF disk.blocks = 0 THEN [disk EXCEPT !.blocks = 1, !.index = 0, !.history = 0]
+                                                  ELSE [disk EXCEPT !.pool = @ \ Invalid(disk)])
          /\ phase' = "run" /\ UNCHANGED <<next, crashes>>
 \* events already reflected in the disk are skipped when they are offered again after a restart
+\* what an event does to the disk, and whether the driver offers it at all (events the disk already reflects are skipped)
+Offered(d, e) == e.ev \in {"refresh", "remove"} \/ e.k >= d.blocks
+Ev(d, e) == CASE e.ev = "block" -> [d EXCEPT !.blocks = @ + 1, !.index = @ + 1, !.history = @ + 1, !.pool = @ \ {<<"own", e.k>>}]
+              [] e.ev = "inject" -> [d EXCEPT !.pool = @ \cup {<<"own", e.k>>}]
+              [] e.ev = "conflict" -> [d EXCEPT !.pool = @ \cup {<<"conf", e.k>>}]
+              [] e.ev = "refresh" -> d                                           \* validity flags only: the abstract disk is the same
+              [] e.ev = "remove" -> [d EXCEPT !.pool = @ \ Invalid(d)]
+CommitName(e) == CASE e.ev = "block" -> "ExecuteSignedBlock" [] e.ev \in {"inject", "conflict"} -> "InjectForeignTransaction"
+                   [] e.ev = "refresh" -> "RefreshUnconfirmed" [] e.ev = "remove" -> "RemoveInvalidUnconfirmed"
 Run == /\ phase = "run" /\ next <= Len(script)
-       /\ LET e == script[next] IN
-          CASE e.ev = "block" ->
-                 IF e.k < disk.blocks THEN NoCommit
-                 ELSE Commit("ExecuteSignedBlock", [disk EXCEPT !.blocks = @ + 1, !.index = @ + 1, !.history = @ + 1, !.pool = 0])
-            [] e.ev = "inject" ->
-                 IF e.k < disk.blocks THEN NoCommit
-                 ELSE Commit("InjectForeignTransaction", [disk EXCEPT !.pool = 1])
-            [] e.ev = "refresh" -> Commit("RefreshUnconfirmed", disk)            \* validity flags only: the abstract disk is the same
-            [] e.ev = "remove" -> Commit("RemoveInvalidUnconfirmed", disk)       \* nothing in these pools has become invalid
+       /\ LET e == script[next] IN IF Offered(disk, e) THEN Commit(CommitName(e), Ev(disk, e)) ELSE NoCommit
        /\ next' = next + 1 /\ UNCHANGED <<phase, crashes>>
 \* anywhere: between commits, or inside one (what was written of the pending state is lost, the disk is the old state)
 Crash == /\ crashes < MaxCrashes /\ phase # "done"
@@ -71,8 +77,10 @@ Spec == Init /\ [][Next]_vars /\ WF_vars(Boot1 \/ Boot2 \/ Boot3 \/ Run \/ Write
 Verify(d) == IF ~d.buckets \/ d.blocks = 0 THEN "ok"
              ELSE IF d.history <= d.blocks - 1 /\ d.index <= d.blocks - 1 THEN "ok" ELSE "inconsistent"
 VerifyAlwaysOK == Verify(disk) = "ok"
-NBlocksOf(sc) == LET RECURSIVE C(_) C(i) == IF i = 0 THEN 0 ELSE C(i - 1) + (IF sc[i].ev = "block" THEN 1 ELSE 0) IN C(Len(sc))
-Final == LET n == NBlocksOf(script) IN [buckets |-> TRUE, index |-> n, history |-> n, blocks |-> n + 1, pool |-> 0]
+\* the disk of the life that never crashes: start-up, then every event in order
+RECURSIVE After(_, _, _)
+After(d, sc, i) == IF i > Len(sc) THEN d ELSE After(Ev(d, sc[i]), sc, i + 1)
+Final == After([buckets |-> TRUE, index |-> 0, history |-> 0, blocks |-> 1, pool |-> {}], script, 1)
 RecoveredEqualsUncrashed == phase = "done" => disk = Final
 EventuallyDone == <>(phase = "done")
 \* the commit names the node may produce, for validating the recorded commit sequence
